@@ -1,12 +1,13 @@
 //vp:property C25
 //vp:pkg ./tsdb/chunks
-//vp:roots ./tsdb/chunkenc
+//vp:roots ./tsdb/chunkenc time
 //vp:bounds read-back while the asynchronous write is pending (chunkWriteQueue.addJob / get / processJob with the real job queue and reference map; the worker goroutine is replaced by explicit processJob calls in the history): every sequential history of 6 operations drawn from {add the next chunk, let the worker write the oldest queued chunk (succeeding or failing), look a chunk up}; at every moment after addJob returned, each added chunk is either handed out by get (the very object that was added) or has been passed to the disk writer, and the completion callback ran exactly once per chunk with the writer's result
 //vp:assume sequential histories (the worker's steps are interleaved explicitly); references concrete 1..4; the queue never fills up (capacity 8)
 package chunks
 
 import (
 	"errors"
+	"time"
 
 	"github.com/prometheus/client_golang/prometheus"
 
@@ -32,6 +33,11 @@ func vpH_C25_write_queue_readback() {
 		}
 		written[ref] = chk
 		return nil
+	}
+	if vpShape("shrinkArmed", 0, 1) == 1 {
+		// as after a burst of >= 1000 pending chunks long ago: the reference map may be re-initialised as soon as it is empty
+		q.chunkRefMapPeakSize = 2 * chunkRefMapShrinkThreshold
+		q.chunkRefMapLastShrink = time.Time{}
 	}
 	var added []chunkenc.Chunk
 	callbacks := map[ChunkDiskMapperRef]int{}
@@ -82,5 +88,35 @@ func vpH_C25_write_queue_readback() {
 		vpAssert(q.jobs.length() == len(added)-processed, "queue length = pending writes")
 	}
 	vpObserve("added", len(added))
+	vpReach("end")
+}
+
+// A chunk whose write is still queued is served from the queue by ChunkDiskMapper.Chunk whatever file its
+// reference points into (the file may not even have been cut yet).
+func vpH_C25_chunk_pending_in_queue() {
+	q := &chunkWriteQueue{
+		jobs:        newWriteJobQueue(8, 2),
+		chunkRefMap: map[ChunkDiskMapperRef]chunkenc.Chunk{},
+		isRunning:   true,
+		adds:        prometheus.NewCounter(prometheus.CounterOpts{Name: "a"}),
+		gets:        prometheus.NewCounter(prometheus.CounterOpts{Name: "b"}),
+		completed:   prometheus.NewCounter(prometheus.CounterOpts{Name: "c"}),
+		shrink:      prometheus.NewCounter(prometheus.CounterOpts{Name: "d"}),
+	}
+	q.writeChunk = func(HeadSeriesRef, int64, int64, chunkenc.Chunk, ChunkDiskMapperRef, bool, bool) error { return nil }
+	cdm := &ChunkDiskMapper{
+		mmappedChunkFiles: map[int]*mmappedChunkFile{},
+		curFileSequence:   2,
+		pool:              chunkenc.NewPool(),
+		chunkBuffer:       newChunkBuffer(),
+		writeQueue:        q,
+	}
+	seq := vpShape("fileOfTheReference", 1, 3) // an older file, the current one, or the next one (cut pending)
+	ref := newChunkDiskMapperRef(uint64(seq), uint64(HeadChunkFileHeaderSize))
+	chk := chunkenc.NewXORChunk()
+	vpAssert(q.addJob(chunkWriteJob{seriesRef: 1, chk: chk, ref: ref, cutFile: seq == 3}) == nil, "queued")
+	got, err := cdm.Chunk(ref)
+	vpObserve("err", err != nil)
+	vpAssert(err == nil && got == chk, "a chunk whose write is pending is read back from the queue, the very object that was handed in")
 	vpReach("end")
 }
